@@ -765,6 +765,9 @@ DIR *fdopendir(int fd) {
   return d;
 }
 
+static ino64_t g_clash_ino = 0;
+static char g_clash_path[RELMAX * 2];
+
 static struct dirbuf *find_dir(DIR *d) {
   for (int i = 0; i < MAXDIRS; i++) if (g_dirs[i].dirp == d) return &g_dirs[i];
   return NULL;
@@ -792,6 +795,30 @@ struct dirent64 *readdir64(DIR *d) {
     return NULL;
   }
   if (b->pos < b->n) res = &b->ents[b->pos++];
+  /* Inode numbers are unique per file system only. Below a `devno` directory (another device)
+   * the first regular file listed gets the inode number of a *.typ file listed earlier outside
+   * of it: two unrelated files, (dev, ino) still different, ino alone equal. */
+  if (res && res->d_type == DT_REG) {
+    int in_other_dev = 0;
+    for (int i = 0; i < g_nrules; i++) {
+      struct rule *ru = &g_rules[i];
+      if (ru->kind != K_DEVNO) continue;
+      size_t sl = strlen(ru->sel);
+      if (!strcmp(ru->sel, b->rel) || (!strncmp(ru->sel, b->rel, sl) && b->rel[sl] == '/')) in_other_dev = 1;
+    }
+    size_t nl = strlen(res->d_name);
+    if (!in_other_dev && !g_clash_ino && nl > 4 && !strcmp(res->d_name + nl - 4, ".typ")) {
+      g_clash_ino = res->d_ino;
+    } else if (in_other_dev && g_clash_ino && !g_clash_path[0]) {
+      snprintf(g_clash_path, sizeof g_clash_path, "%s%s%s", strcmp(b->rel, ".") ? b->rel : "", strcmp(b->rel, ".") ? "/" : "", res->d_name);
+      trace_line("inoclash", g_clash_path, 0, 1, 0, -1); /* (no inode numbers in the log: they differ from run to run) */
+    }
+    if (g_clash_path[0]) {
+      char full[RELMAX * 2];
+      snprintf(full, sizeof full, "%s%s%s", strcmp(b->rel, ".") ? b->rel : "", strcmp(b->rel, ".") ? "/" : "", res->d_name);
+      if (!strcmp(full, g_clash_path)) res->d_ino = g_clash_ino;
+    }
+  }
   trace_line("readdir", b->rel, b->pos, res ? 1 : 0, 0, -1);
   pthread_mutex_unlock(&g_lock);
   if (res == NULL) errno = e; /* end of stream leaves errno unchanged */
@@ -879,6 +906,7 @@ int statx(int dirfd, const char *path, int flags, unsigned int mask, struct stat
         ru->fired = 1;
         trace_line("devno", rel, (long)buf->stx_dev_minor, ru->arg, 0, i);
         buf->stx_dev_minor += (unsigned)ru->arg;
+        if (g_clash_path[0] && !strcmp(rel, g_clash_path)) buf->stx_ino = g_clash_ino;
         break;
       }
     }
